@@ -405,6 +405,8 @@ RULES = [
     Rule("C04.E2", rule_E2, floor=3, doc="reseed dominates generation"),
     Rule("C04.E3", rule_E3, floor=2, doc="nothing consumes randomness between reseed and first draw"),
     Rule("C04.E4", rule_E4, floor=4, doc="ownership of the configuration"),
+    Rule("C04.E7", lambda ctx: __import__("sa.rules.c11", fromlist=["x"]).rule_K7(ctx), floor=1,
+         doc="the config-driven entry point without a cache returns the generated dataset with the filters applied, also when that dataset is empty (C11.K7 re-judged)"),
     Rule("C04.E6", rule_E6, floor=1, doc="config-driven filter application by abstract evaluation on symbolic filter histories"),
     Rule("C04.E5", rule_E5, floor=3, doc="filters in order, none skipped"),
     Rule("C04.E12", lambda ctx: __import__("sa.mypyx", fromlist=["x"]).cross_check(ctx, [HELPER, GENERATE, f"{DS}.GPTDataset.from_config"], "C04.E12"), floor=1,
